@@ -39,16 +39,28 @@ def _mutants():
 
 
 def _apply(m, dst):
+  """Materialises the mutated tree in dst/vizier. Returns (ok, message)."""
+  if m['reverse']:
+    # A later commit may have touched the same lines, so revert with git's
+    # three-way machinery in a throw-away worktree, then copy the package out.
+    wt = tempfile.mkdtemp(prefix='verif-mutant-wt-', dir='/dev/shm' if os.path.isdir('/dev/shm') else None)
+    os.rmdir(wt)
+    try:
+      subprocess.run(['git', '-C', boot.REPO, 'worktree', 'add', '--detach', '-f', wt, 'HEAD'],
+                     capture_output=True, text=True, check=True)
+      p = subprocess.run(['git', '-C', wt, 'revert', '--no-commit', m['commit']], capture_output=True, text=True)
+      if p.returncode != 0:
+        return False, 'revert conflicts with later commits: ' + (p.stdout + p.stderr).strip().splitlines()[-1]
+      shutil.copytree(os.path.join(wt, 'vizier'), os.path.join(dst, 'vizier'),
+                      ignore=shutil.ignore_patterns('__pycache__'))
+      return True, ''
+    finally:
+      subprocess.run(['git', '-C', boot.REPO, 'worktree', 'remove', '--force', wt], capture_output=True)
+      shutil.rmtree(wt, ignore_errors=True)
   shutil.copytree(os.path.join(boot.REPO, 'vizier'), os.path.join(dst, 'vizier'),
                   ignore=shutil.ignore_patterns('__pycache__'))
-  if m['reverse']:
-    diff = subprocess.run(['git', '-C', boot.REPO, 'diff', m['commit'] + '^', m['commit'], '--', 'vizier'],
-                          capture_output=True, text=True, check=True).stdout
-    p = subprocess.run(['patch', '-R', '-p1', '-d', dst, '--no-backup-if-mismatch', '-s'], input=diff,
-                       capture_output=True, text=True)
-  else:
-    p = subprocess.run(['patch', '-p1', '-d', dst, '--no-backup-if-mismatch', '-s'],
-                       input=open(m['patch']).read(), capture_output=True, text=True)
+  p = subprocess.run(['patch', '-p1', '-d', dst, '--no-backup-if-mismatch', '-s'],
+                     input=open(m['patch']).read(), capture_output=True, text=True)
   return p.returncode == 0, (p.stdout + p.stderr)[-500:]
 
 
@@ -71,7 +83,8 @@ def main(argv):
     try:
       ok, msg = _apply(m, dst)
       if not ok:
-        rows.append((m['id'], '-', 'PATCH-FAILED', 0.0, msg.strip().splitlines()[-1] if msg.strip() else ''))
+        rows.append((m['id'], '-', 'NOT-APPLICABLE', 0.0, msg.strip().splitlines()[-1] if msg.strip() else ''))
+        print('mutant %-55s %-4s %-13s %6.1fs %s' % rows[-1])
         continue
       for prop in m['properties']:
         env = dict(os.environ)
@@ -84,11 +97,20 @@ def main(argv):
         clause = [l.strip() for l in p.stdout.splitlines() if l.strip().startswith('clause=')]
         status = 'CAUGHT' if (p.returncode == 1 and viol) else ('HARNESS-ERROR' if p.returncode == 2 else 'MISSED')
         rows.append((m['id'], prop, status, time.time() - t0, clause[0][:150] if clause else ''))
+        print('mutant %-55s %-4s %-13s %6.1fs %s' % rows[-1])
+        sys.stdout.flush()
     finally:
       shutil.rmtree(dst, ignore_errors=True)
       shutil.rmtree(evd, ignore_errors=True)
-    print('mutant %-55s %-4s %-13s %6.1fs %s' % rows[-1])
-    sys.stdout.flush()
   caught = sum(1 for r in rows if r[2] == 'CAUGHT')
-  print(f'mutants: {caught}/{len(rows)} caught')
+  print(f'mutants: {caught}/{len(rows)} (mutant, check) pairs caught')
+  if not want:
+    path = os.path.join(boot.VERIF_ROOT, 'seeded', 'SENSITIVITY.md')
+    with open(path, 'w') as f:
+      f.write('# Sensitivity table (written by `./vcheck mutants`, tier %s)\n\n' % tier)
+      f.write('Each change is applied to a scratch copy of `/repo/vizier`; the listed quick check must exit 1 with a VIOLATION.\n\n')
+      f.write('| change | check | result | wall s | first clause |\n|---|---|---|---|---|\n')
+      for r in rows:
+        f.write('| %s | %s | %s | %.0f | %s |\n' % (r[0], r[1], r[2], r[3], r[4].replace('|', '/')))
+      f.write('\n%d of %d (change, check) pairs caught. NOT-APPLICABLE = the revert of an early fix conflicts with later fix commits; those fixes are covered by the hand-written single-site reversals `seeded/M-*`.\n' % (caught, len(rows)))
   return 0
